@@ -38,13 +38,15 @@ def safe_point(counter=[0]):
 
 def run_(ctx):
     ctx.rule = ("a case = (call mix, bytes delivered caller->callee before the cut, bytes delivered callee->caller, chunk "
-                "sizes, way the connection ends, reason class of the ending, what happens to stalled/late work afterwards) on two real Brokers, or a "
+                "sizes or split schedules, way the connection ends, reason class of the ending, other callables / a second connection using the "
+                "shared eventual queue, what happens to stalled/late work afterwards) on two real Brokers, or a "
                 "random abstract op sequence executed through the real callRemote/getRequest/complete/fail/finish; "
                 "distinct = distinct case tuple; non-trivial = at least one two-way request was in the table when the "
                 "connection ended, or the op sequence fired at least one Deferred")
     ctx.assumptions = [
-        "Twisted's Deferred, maybeDeferred and the eventual-send queue behave as documented (FIFO; a callback added to a fired "
-        "Deferred runs at once) -- modelled, checked only through the traces",
+        "Twisted's Deferred and maybeDeferred behave as documented (a callback added to a fired Deferred runs at once); the "
+        "eventual-send queue is modelled from the translated shape of eventual.py (FIFO append, batch snapshot, per-event "
+        "try/except); entries queued by foolscap itself for other purposes (doNextCall, tub bookkeeping) are not in the model",
         "logging inside PendingRequest.fail/complete (PLog) has no effect on the request and does not raise",
         "the byte-level part (Banana parsing, Answer/Error unslicers reaching getRequest/complete/fail) is not modelled in Coq: "
         "it is tied by the shape facts of translate/g_requests.py and exercised by the cut sweep",
@@ -79,15 +81,18 @@ def one(ctx, impl, traces, tag, cfg):
         with impl.quiet():
             r = impl.scenario(cfg["calls"], cfg["cutA"], cfg["cutB"], cfg.get("chunkA", 7), cfg.get("chunkB", 7),
                               cfg.get("loss", "lost"), cfg.get("stall", "after"), tuple(cfg.get("after", ("ok", "oneway"))),
-                              cfg.get("reason"))
+                              cfg.get("reason"), tuple(cfg["probe"]) if cfg.get("probe") else None,
+                              tuple(tuple(b) for b in cfg.get("bystanders", ())), cfg.get("other"))
     except Exception as e:
         import traceback
         ctx.fail("oracle/exception-escaped", "an exception escaped dataReceived/connectionLost/callRemote: %r on %r" % (e, cfg),
                  replay=dict(cfg=cfg, tb=traceback.format_exc()))
         return None
     bad = impl.judge(r)
-    if not bad and tag == "full":
+    if not bad and (tag == "full" or (tag == "corpus" and cfg["cutA"] >= 10 ** 9 and cfg["cutB"] >= 10 ** 9)):
         bad = impl.judge_full(cfg["calls"], r)
+    if not bad and cfg.get("probe") and cfg.get("whole_reference", True):
+        bad = chunk_independent(impl, cfg, r)
     if bad:
         ctx.fail("oracle/" + bad[0], "%s; scenario %r" % (bad[1], cfg), replay=dict(cfg=cfg, fires=r["fires"], waiting=r["waiting"]))
     drop = [e for e in r["errors"] if e.startswith("protocol violation")]
@@ -110,6 +115,39 @@ def one(ctx, impl, traces, tag, cfg):
         ctx.hist("outcome", impl.ONAME.get(f[0], "?") if f else "not-fired(one-way)")
     add_trace(traces, r["trace"], cfg)
     return r
+
+
+_WHOLE = {}
+
+
+def chunk_independent(impl, cfg, r):
+    """what every caller has seen while the connection is still up, after ALL bytes of both directions were delivered (and a
+    further call was made and answered), must not depend on how the byte streams were cut into packets: compare with the
+    same history delivered in one piece per direction"""
+    if not r["delivered_all"]:
+        return None
+    key = json.dumps([cfg["calls"], cfg.get("stall", "after"), cfg["probe"]])
+    if key not in _WHOLE:
+        with impl.quiet():
+            w = impl.scenario(cfg["calls"], 10 ** 9, 10 ** 9, 10 ** 9, 10 ** 9, "lost", cfg.get("stall", "after"), (), None,
+                              tuple(cfg["probe"]))
+        _WHOLE[key] = (w["pre_fires"], w["pre_types"])
+    wf, wt = _WHOLE[key]
+    if (r["pre_fires"], r["pre_types"]) != (wf, wt):
+        diff = [i for i in range(len(wf)) if i >= len(r["pre_fires"]) or (r["pre_fires"][i], r["pre_types"][i]) != (wf[i], wt[i])]
+        h = diff[0]
+        return ("chunking-changes-outcome",
+                "with the connection still up and every byte delivered, call #%d (%s) has outcome %r when the streams arrive in the "
+                "chunks chunkA=%r chunkB=%r, but %r when each direction arrives in one piece (calls that differ: %r)"
+                % (h, (list(cfg["calls"]) + list(cfg["probe"]))[h], show(r["pre_fires"], r["pre_types"], h),
+                   cfg.get("chunkA"), cfg.get("chunkB"), show(wf, wt, h), diff))
+    return None
+
+
+def show(fires, types, h):
+    if h >= len(fires) or not fires[h]:
+        return "not fired"
+    return "+".join("callback" if c == 1 else "errback(%s)" % t for c, t in zip(fires[h], types[h]))
 
 
 def add_trace(traces, trace, cfg):
@@ -197,6 +235,79 @@ def wire_sweep(ctx, impl, traces):
                     one(ctx, impl, traces, "loss", cfg)
     ctx.sample(dict(kind="cut", cfg=cfg))
     reason_sweep(ctx, impl, traces)
+    chunk_sweep(ctx, impl, traces)
+    queue_sweep(ctx, impl, traces)
+
+
+def queue_sweep(ctx, impl, traces):
+    """the eventual-send queue is shared by everything in the process: other callables -- raising or not -- queued just
+    before / after the loss or as notifyOnDisconnect handlers, and a second connection (with its own outstanding calls and
+    handler) lost in the same reactor turn before or after the recorded one"""
+    mixes = [["late", "ok"], ["late", "ok", "boom", "oneway", "late"], ["late"], []]
+    kinds = ["raise", "ok"]
+    n = 0
+    for mix in mixes:
+        for loss in ("lost", "shutdown-then-lost", "lost-twice", "shutdown-other-then-data"):
+            for cut in ((10 ** 9, 0), (0, 0), (10 ** 9, 10 ** 9)):
+                combos = []
+                for k in kinds:
+                    combos.append(dict(bystanders=[["before-loss", k]]))
+                    combos.append(dict(bystanders=[["watcher", k], ["after-loss", "ok"]]))
+                    for order in ("first", "second"):
+                        combos.append(dict(other=dict(calls=["late", "ok"], watcher=k, order=order)))
+                        combos.append(dict(other=dict(calls=["late"], watcher=k, order=order), bystanders=[["watcher", k]]))
+                combos.append(dict(bystanders=[["before-loss", "raise"], ["before-loss", "ok"], ["watcher", "raise"],
+                                               ["after-loss", "raise"]], other=dict(calls=["late", "ok"], watcher="raise", order="first")))
+                if ctx.tier != "thorough":
+                    combos = ctx.rng.sample(combos, 5)
+                for extra in combos:
+                    cfg = dict(calls=mix, cutA=cut[0], cutB=cut[1], loss=loss, chunkA=50, chunkB=50, **extra)
+                    one(ctx, impl, traces, "queue", cfg)
+                    n += 1
+                    ctx.hist("queue_bystander", ",".join(sorted(set([b[1] + "@" + b[0] for b in extra.get("bystanders", [])] +
+                                                                    (["other-connection-" + extra["other"]["watcher"]] if extra.get("other") else [])))))
+    ctx.sample(dict(kind="queue", cfg=cfg))
+
+
+CHUNK_MIXES = [
+    ["bytes_rejected", "ok", "float_rejected", "typed_ok", "longint_rejected", "arg_rejected", "big", "list_rejected", "ok"],
+    ["bytes_rejected", "ok", "late", "typed_ok"],
+    ["arg_rejected", "ok", "arg_rejected", "big", "oneway", "ok"],
+    ["result_violation", "typed_ok", "bytes_rejected", "boom", "nomethod", "ok"],
+    ["badresult", "ok", "unsendable_arg", "big", "longint_rejected", "float_rejected", "ok"],
+]
+
+
+def chunk_sweep(ctx, impl, traces):
+    """chunking independence while the connection is up: every mix contains tokens the receiver rejects (STRING / FLOAT /
+    LONGINT bodies, whole sequences; on the caller's and on the callee's side) followed by ordinary calls; both directions are
+    cut into two pieces at every offset (thorough) / at token boundaries -3..+3 and a sample (quick), into three pieces, and into
+    fixed sizes; afterwards a probe call must still be answered"""
+    thorough = ctx.tier == "thorough"
+    for mix in CHUNK_MIXES:
+        base = dict(calls=mix, cutA=10 ** 9, cutB=10 ** 9, probe=["ok"], after=[], loss="lost")
+        r0 = one(ctx, impl, traces, "full", dict(base, chunkA=10 ** 9, chunkB=10 ** 9))
+        if r0 is None:
+            continue
+        tA, tB = r0["totalA"], r0["totalB"]
+        for d, tot, marks in (("chunkA", tA, r0["marksA"]), ("chunkB", tB, r0["marksB"])):
+            other = "chunkB" if d == "chunkA" else "chunkA"
+            if thorough:
+                pos = list(range(1, tot))
+            else:
+                near = sorted({m + k for m in marks for k in (-3, -2, -1, 0, 1, 2, 3) if 0 < m + k < tot})
+                pos = sorted(set(ctx.rng.sample(near, min(len(near), 70)) + [ctx.rng.randint(1, tot - 1) for _ in range(25)]))
+            for p in pos:
+                one(ctx, impl, traces, "chunk2", dict(base, **{d: [p], other: 10 ** 9}))
+                ctx.hist("chunking", "two pieces")
+            for i in range(ctx.n(25, 300)):
+                a, b = sorted(ctx.rng.sample(range(1, tot), 2))
+                one(ctx, impl, traces, "chunk3", dict(base, **{d: [a, b - a], other: ctx.rng.choice([10 ** 9, 5, 17])}))
+                ctx.hist("chunking", "three pieces")
+            for size in (1, 2, 3, 5, 11, 64):
+                one(ctx, impl, traces, "chunkN", dict(base, **{d: size, other: ctx.rng.choice([10 ** 9, 1, 7])}))
+                ctx.hist("chunking", "fixed size")
+    ctx.sample(dict(kind="chunking", cfg=dict(base, chunkB=[17])))
 
 
 REASON_MIXES = [[], ["late"], ["ok"], ["late", "ok", "boom", "oneway", "late"], ["ok", "result_violation", "late", "big"],
@@ -248,8 +359,10 @@ def gen_ops(rng, n):
             ops.append(("Complete", rng.randint(0, ncalls - 1)))
         elif x < 0.72:
             ops.append(("Fail", rng.randint(0, ncalls - 1), rng.choice([4, 5, 7])))
-        elif x < 0.80:
+        elif x < 0.78:
             ops.append(("Finish", rng.choice(REASON_NAMES)))
+        elif x < 0.86:
+            ops.append(("Enqueue", rng.random() < 0.6))
         else:
             ops.append(("Turn",))
     return ops
@@ -324,6 +437,8 @@ def coq_op(op, impl):
         return {"listed": "Finish (RListed %s)", "sub": "Finish (RSubclass %s)", "unrelated": "Finish RUnrelated%s"}[op[1]] % (op[2] or "")
     if k == "Turn":
         return "Turn"
+    if k == "Enqueue":
+        return "Enqueue %s" % ("true" if op[1] else "false")
     raise KeyError(op)
 
 
@@ -332,7 +447,7 @@ Local Open Scope Z_scope.
 Definition coarse (o : outcome) : Z := match o with OResult => 1 | ODeadRef => 4 | _ => 0 end.
 Definition flat (s : st) : list Z :=
   map fst (table s) ++ [-1] ++ flat_map (fun c => map coarse (c_fires c) ++ [-2]) (calls s)
-  ++ [-1; if disconnected s then 1 else 0] ++ map (fun e => Z.of_nat (fst e)) (evq s) ++ [-1; Z.of_nat (raised s)].
+  ++ [-1; if disconnected s then 1 else 0] ++ map qcode (evq s) ++ [-1; Z.of_nat (raised s)].
 Fixpoint check (s : st) (ops : list op) (obs : list (list Z)) (i : Z) {struct ops} : Z :=
   match ops, obs with
   | x :: ops', o :: obs' => let s' := step s x in if list_eqb (flat s') o then check s' ops' obs' (i + 1) else i
